@@ -1001,7 +1001,8 @@ class HistogramBase(abc.ABC):
             except ValueError as v:
                 raise TypeError(str(v)) from v
             self.frequencies = self.frequencies * scalar
-            self.errors2 = self.errors2 * scalar**2
+            # Not `scalar**2`: a numpy scalar would be squared in its own (possibly narrow) type
+            self.errors2 = self.errors2 * scalar * scalar
             self._missed = self._missed * scalar
             if hasattr(self, "_stats"):
                 self._stats = self._stats * scalar
@@ -1031,7 +1032,8 @@ class HistogramBase(abc.ABC):
         elif np.isscalar(other):
             self._coerce_dtype(np.float64)
             self.frequencies = self.frequencies / other
-            self.errors2 = self.errors2 / other**2
+            # Not `other**2`: a numpy scalar would be squared in its own (possibly narrow) type
+            self.errors2 = self.errors2 / other / other
             self._missed /= other
             if hasattr(self, "_stats"):
                 self._stats *= 1 / float(other)
